@@ -70,4 +70,55 @@ func init() {
 	c("c07-eval-wrapper", "C07.eval", interp, "\t\t\trunCtxCancelFn()\n\t\t}\n\t\treturn v, ok\n", "\t\t\trunCtxCancelFn()\n\t\t}\n\t\treturn v, ok && v != nil\n", "wrapper:transparent")
 	c("c07-eval-values-order", "C07.eval", interp, "variableValues = append(variableValues, v)", "variableValues = append([]any{v}, variableValues...)", "variables:paired")
 	c("c07-eval-extra-option", "C07.eval", interp, "compilerOpts = append(compilerOpts, gojq.WithVariables(variableNames))", "compilerOpts = append(compilerOpts, gojq.WithVariables(variableNames), gojq.WithInputIter(gojq.NewIter()))", "option:WithInputIter")
+
+	// ---- round 3 (self-review by mutation)
+	const jsongo = "format/json/json.go"
+	c("c07-shadow-go-registration", "C07.shadow", interp, "RegisterFunc0(\"history\", (*Interp).history)", "RegisterFunc0(\"floor\", (*Interp).history)", "go:floor/0")
+	c("c07-orig-drop-flags", "C07.orig", binjq, "_orig_splits($regex; $flags));", "_orig_splits($regex));", "splits/2:override")
+	c("c07-orig-inverted-wrong", "C07.orig", binjq, "if _exttype == \"binary\" then bfn", "if _exttype != \"binary\" then bfn", "_binary_or_orig/2")
+	c("c07-orig-after-pipe", "C07.orig", binjq, "def explode: _binary_or_orig([.[range(.size)]]; _orig_explode);", "def explode: tostring | _binary_or_orig([.[range(.size)]]; _orig_explode);", "explode/0:override")
+
+	// C07.stdio
+	c("c07-stdio-debug-newline", "C07.stdio", intjq, "def debug: ([\"DEBUG:\", .] | tojson | printerrln), .;", "def debug: ([\"DEBUG:\", .] | tojson | printerr), .;", "debug/0:writes")
+	c("c07-stdio-newline-first", "C07.stdio", intjq, "def printerrln: ., \"\\n\" | printerr;", "def printerrln: \"\\n\", . | printerr;", "debug/0:writes")
+	c("c07-stdio-stream", "C07.stdio", intjq, "def _stderr: _stdio(\"stderr\");", "def _stderr: _stdio(\"stdout\");", "stderr/0:writes")
+	c("c07-stdio-fd-table", "C07.stdio", interp, "case \"stderr\":\n\t\treturn i.OS.Stderr(), nil", "case \"stderr\":\n\t\treturn i.OS.Stdout(), nil", "fd:stderr")
+	c("c07-stdio-fprintln", "C07.stdio", interp, "if _, err := fmt.Fprint(w, c); err != nil {", "if _, err := fmt.Fprintln(w, c); err != nil {", "go:_stdio_write/1:value")
+	c("c07-stdio-other-value", "C07.stdio", interp, "if _, err := fmt.Fprint(w, c); err != nil {", "if _, err := fmt.Fprint(w, fdName); err != nil {", "go:_stdio_write/1:value")
+	c("c07-stdio-guard", "C07.stdio", interp, "if i.EvalInstance.IsCompleting {\n\t\treturn gojq.NewIter()\n\t}\n\n\tif _, err := fmt.Fprint", "if !i.EvalInstance.IsCompleting {\n\t\treturn gojq.NewIter()\n\t}\n\n\tif _, err := fmt.Fprint", "go:_stdio_write/1:guards")
+
+	// C07.scan
+	c("c07-scan-start-not-reset", "C07.scan", enc, "\t\t\ti++\n\t\t\tstart = i\n\t\t\tcontinue\n\t\t}\n\t\tc, size", "\t\t\ti++\n\t\t\tcontinue\n\t\t}\n\t\tc, size", "string: round byte/replace")
+	c("c07-scan-rune-skip", "C07.scan", enc, "\t\t\te.w.WriteString(`\\ufffd`)\n\t\t\ti += size", "\t\t\te.w.WriteString(`\\ufffd`)\n\t\t\ti += 2", "string: round rune/replace")
+	c("c07-scan-rune-inc", "C07.scan", enc, "\t\t\tcontinue\n\t\t}\n\t\ti += size\n\t}", "\t\t\tcontinue\n\t\t}\n\t\ti++\n\t}", "string: round rune/keep")
+	c("c07-scan-pending-guard", "C07.scan", enc, "\t\t\tif start < i {\n\t\t\t\te.w.WriteString(s[start:i])\n\t\t\t}\n\t\t\tswitch b {", "\t\t\tif start > i {\n\t\t\t\te.w.WriteString(s[start:i])\n\t\t\t}\n\t\t\tswitch b {", "string: round byte/replace")
+	c("c07-scan-replacement-first", "C07.scan", enc, "\t\t\tif start < i {\n\t\t\t\te.w.WriteString(s[start:i])\n\t\t\t}\n\t\t\te.w.WriteString(`\\ufffd`)", "\t\t\te.w.WriteString(`\\ufffd`)\n\t\t\tif start < i {\n\t\t\t\te.w.WriteString(s[start:i])\n\t\t\t}", "string: round rune/replace")
+	c("c07-scan-tail", "C07.scan", enc, "if start < len(s) {\n\t\te.w.WriteString(s[start:])", "if start < len(s) {\n\t\te.w.WriteString(s[len(s):])", "string: tail")
+	c("c07-scan-init", "C07.scan", enc, "\tstart := 0\n", "\tstart := 1\n", "string: init")
+	c("c07-scan-quote", "C07.scan", enc, "\t\te.w.WriteString(s[start:])\n\t}\n\te.w.WriteByte('\"')", "\t\te.w.WriteString(s[start:])\n\t\te.w.WriteByte('\"')\n\t}", "string: quotes")
+
+	// C07.json: buffer plumbing, pairs, which datum is encoded
+	c("c07-json-flush-reset-only", "C07.json", enc, "if e.w.Len() > 8*1024 {\n\t\treturn e.flush()\n\t}", "if e.w.Len() > 8*1024 {\n\t\te.w.Reset()\n\t}", "flush: only place")
+	c("c07-json-flush-no-reset", "C07.json", enc, "_, err := e.out.Write(e.w.Bytes())\n\te.w.Reset()\n\treturn err", "_, err := e.out.Write(e.w.Bytes())\n\treturn err", "flush: empties")
+	c("c07-json-marshal-no-flush", "C07.json", enc, "if ferr := e.flush(); ferr != nil && err == nil {\n\t\terr = ferr\n\t}\n\treturn err", "return err", "Marshal: flushes")
+	c("c07-json-pairs-counter", "C07.json", enc, "\t\tkvs[i] = keyVal{k, v}\n\t\ti++\n", "\t\tkvs[i] = keyVal{k, v}\n", "object: pairs")
+	c("c07-json-sort-copy", "C07.json", enc, "slices.SortFunc(kvs, func(a, b keyVal) int {", "slices.SortFunc(slices.Clone(kvs), func(a, b keyVal) int {", "object: pairs")
+	c("c07-json-encode-key-as-value", "C07.json", enc, "if err := e.encode(kv.val); err != nil {", "if err := e.encode(kv.key); err != nil {", "object: encode:value")
+	c("c07-json-comma-ne", "C07.json", enc, "if i > 0 {\n\t\t\te.writeByte(',', e.opts.Colors.Array)", "if i >= 0 {\n\t\t\te.writeByte(',', e.opts.Colors.Array)", "array: emit 44")
+
+	// C07.eval
+	c("c07-eval-environ", "C07.eval", interp, "gojq.WithEnvironLoader(ni.OS.Environ)", "gojq.WithEnvironLoader(func() []string { return nil })", "option:WithEnvironLoader:source")
+	c("c07-eval-environ-impl", "C07.eval", "pkg/cli/cli.go", "func (*stdOS) Environ() []string { return os.Environ() }", "func (*stdOS) Environ() []string { return nil }", "environ:")
+	c("c07-eval-compile-opts", "C07.eval", interp, "gc, err := gojq.Compile(gq, compilerOpts...)", "gc, err := gojq.Compile(gq, funcCompilerOpts...)", "compile:options")
+	c("c07-eval-vars-two-loops", "C07.eval", interp, "\tfor k, v := range i.slurps() {\n\t\tvariableNames = append(variableNames, \"$\"+k)\n\t\tvariableValues = append(variableValues, v)\n\t}", "\tfor k := range i.slurps() {\n\t\tvariableNames = append(variableNames, \"$\"+k)\n\t}\n\tfor _, v := range i.slurps() {\n\t\tvariableValues = append(variableValues, v)\n\t}", "variables:paired")
+
+	// C07.tojson
+	c("c07-tojson-default-indent", "C07.tojson", jsongo, "func toJSON(_ *interp.Interp, c any, opts ToJSONOpts) any {\n\tcj := makeEncoder(opts)", "func toJSON(_ *interp.Interp, c any, opts ToJSONOpts) any {\n\tif opts.Indent == 0 {\n\t\topts.Indent = 2\n\t}\n\tcj := makeEncoder(opts)", "options.unmodified")
+	c("c07-tojson-truncated-input", "C07.tojson", jsongo, "bitio.NewIOReader(d.RawLen(d.Len()))", "bitio.NewIOReader(d.RawLen(d.Len() - 8))", "whole-input")
+
+	// C07.fromjson, C07.haltprint (imported rules), C07.haltstream
+	c("c07-fromjson-eof-and", "C07.fromjson", jsongo, "if !lines && (len(vs) != 1 || !foundEOF) {", "if !lines && (len(vs) != 1 && !foundEOF) {", "json:eof")
+	c("c07-fromjson-lines-mode", "C07.fromjson", jsongo, "return decodeJSONEx(d, false)", "return decodeJSONEx(d, true)", "json:mode")
+	c("c07-haltprint-wrapped", "C07.haltprint", interp, "bs, _ := gojq.Marshal(haltErrV)", "bs, _ := gojq.Marshal([]any{haltErrV})", "halt-print:json")
+	c("c07-haltstream-stdout", "C07.haltstream", interp, "if _, err := i.OS.Stderr().Write(bs); err != nil {", "if _, err := i.OS.Stdout().Write(bs); err != nil {", "halt-write")
 }
